@@ -304,5 +304,5 @@ def replay(ctx, case):
 
 def run(ctx):
     q = ctx.quick
-    ctx.hyp("find_snvs", case_strategy(), check_case, 40 if q else 200)
-    ctx.hyp("threshold_table", table_case(), check_case, 40 if q else 200)
+    ctx.hyp("find_snvs", case_strategy(), check_case, 80 if q else 300)
+    ctx.hyp("threshold_table", table_case(), check_case, 80 if q else 300)
